@@ -70,7 +70,7 @@ class Spike(Job):
 
 
 def jobs(tier):
-    N = 5 if tier == "quick" else 7
+    N = 5 if tier == "quick" else 9
     out = []
     for method in ("average", "differential"):
         for n in range(1, N + 1):
@@ -95,7 +95,7 @@ ASSUMPTIONS = ["numpy.ma environment model validated per path against numpy 1.26
 
 
 def bounds(tier):
-    return {"series_length": "1..5" if tier == "quick" else "1..7", "methods": ["average", "differential", "other -> ValueError"],
+    return {"series_length": "1..5" if tier == "quick" else "1..9", "methods": ["average", "differential", "other -> ValueError"],
             "thresholds": "each present/absent, symbolic value >= 0 (incl. 0, equal, crossed)"}
 
 
